@@ -1,6 +1,8 @@
 /- Driver handlers for the C07 correspondence streams. -/
 import Csvq.Model.Proto
 import Csvq.Model.Sort
+import Csvq.Model.SortStrict
+import Csvq.Model.CellText
 namespace Csvq.Drive
 open Csvq Csvq.Proto
 
@@ -18,77 +20,139 @@ def parseItem (s : String) : Option OrdItem :=
       else none
   | _ => none
 
+/-- the profile of a cell as the MODEL's own conversions compute it: for a TEXT every rung of NewSortValue's ladder
+    (integer, float, boolean, the upper-cased trimmed text) comes from Model/Text, ParseFloat, Unicode applied to
+    the raw bytes — not from the implementation's answers in the token; the datetime rung too (Model/ParseTime),
+    except for a text that does not begin with a digit: it can only be a datetime through the session's custom
+    format (the C07 stream runs under one), which the model does not know — there the token's answer is taken -/
+def modelProfile (tok : String) : Option Profile :=
+  match tok.splitOn ";" with
+  | [r, _, _, d, _, _, _] =>
+    match parseVal r with
+    | some (.str b) => do
+      let d ← parseOpt String.toInt? d
+      let p := profileOfText b (Uni.strToUpper (PF.trimSpace b))
+      let dt := match PT.strToTime b with
+        | some x => some x
+        | none => if PT.isDig ((PF.trimSpace b).getD 0 0) then none else d
+      pure { p with dt? := dt }
+    | _ => parseProfile tok
+  | _ => parseProfile tok
+
+/-- the text a sort value keeps for the comparison with a string: for a text the model's own upper-cased trimmed
+    text, for a number the token's (upper-cased ToString) -/
+def modelTxt (p : Profile) (t : Option Bytes) : Bytes :=
+  match p.raw with
+  | .str b => Uni.strToUpper (PF.trimSpace b)
+  | _ => t.getD []
+
 /-- cell token: profile~txt -/
 def parseCell (s : String) : Option SortVal :=
   match s.splitOn "~" with
   | [p, t] => do
-    let p ← parseProfile p
+    let p ← modelProfile p
     let t ← parseOpt parseHexX t
-    pure (toSortVal p (t.getD []))
+    pure (toSortVal p (modelTxt p t))
+  | _ => none
+
+def showIds (l : List Nat) : String := if l.isEmpty then "-" else String.intercalate "," (l.map toString)
+
+/-- the same cell under --strict-equal: the model builds the identical key from the raw value -/
+def parseCellS (s : String) : Option SSortVal :=
+  match s.splitOn "~" with
+  | [p, t] => do
+    let p ← modelProfile p
+    let t ← parseOpt parseHexX t
+    pure (toSSortVal p (modelTxt p t))
   | _ => none
 
 /-- rows: each `id cell…cell` -/
-def parseRows (ncols : Nat) : List String → Option (List (Nat × List SortVal))
+def parseRowsG {α} (cell : String → Option α) (ncols : Nat) : List String → Option (List (Nat × List α))
   | [] => some []
   | idt :: rest => do
     let id ← idt.toNat?
-    let cells ← (rest.take ncols).mapM parseCell
+    let cells ← (rest.take ncols).mapM cell
     if cells.length ≠ ncols then none
-    let more ← parseRows ncols (rest.drop ncols)
+    let more ← parseRowsG cell ncols (rest.drop ncols)
     pure ((id, cells) :: more)
 termination_by l => l.length
 decreasing_by simp_wf; omega
 
-def firstBad (its : List OrdItem) : List (Nat × List SortVal) → Nat → Option Nat
-  | a :: b :: rest, i => if rowsLess its b.2 a.2 then some i else firstBad its (b :: rest) (i + 1)
+def firstBadG {α} (lt : List α → List α → Bool) : List (Nat × List α) → Nat → Option Nat
+  | a :: b :: rest, i => if lt b.2 a.2 then some i else firstBadG lt (b :: rest) (i + 1)
   | _, _ => none
 
-def showIds (l : List Nat) : String := if l.isEmpty then "-" else String.intercalate "," (l.map toString)
+def showSortVal : SortVal → String
+  | .null => "N"
+  | .int i f t => s!"I {i} {showF f} x{hex t}"
+  | .flt f t => s!"F {showF f} x{hex t}"
+  | .dt ns => s!"D {ns}"
+  | .bool b => if b then "B 1" else "B 0"
+  | .str t => "S x" ++ hex t
+
+/-- is the implementation's output order sorted? (`lt` = SortValues.Less of the mode) -/
+def opSorted {α} (cell : String → Option α) (lt : List OrdItem → List α → List α → Bool)
+    (its nc : String) (rest : List String) : String :=
+  match (its.splitOn ",").mapM parseItem, nc.toNat? with
+  | some its, some ncols =>
+    match parseRowsG cell ncols rest with
+    | some rows =>
+      match firstBadG (lt its) rows 0 with
+      | none => "sorted"
+      | some i => s!"unsorted-at:{i}"
+    | none => "bad-op"
+  | _, _ => "bad-op"
+
+/-- rows in sorted order; apply OFFSET then LIMIT as view.go does (`eqv` = SortValues.EquivalentTo of the mode);
+    answer: surviving ids -/
+def opCut {α} (cell : String → Option α) (eqv : List α → List α → Bool)
+    (its nc wt kind lim off : String) (rest : List String) : String :=
+  match (its.splitOn ",").mapM parseItem, nc.toNat?, parseBool wt, off.toInt? with
+  | some _, some ncols, some wt, some off =>
+    match parseRowsG cell ncols rest with
+    | some rows =>
+      let afterOff := offsetRows off rows
+      let eqv' := fun (a b : Nat × List α) => eqv a.2 b.2
+      -- View.Limit takes the percentage of RecordLen() + view.offset
+      let total := afterOff.length + (if off < 0 then 0 else off.toNat)
+      let k? : Option Nat :=
+        if kind = "n" then lim.toInt?.map limitNumber
+        else if kind = "p" then (parseF lim).bind (limitPercent total)
+        else if kind = "none" then some afterOff.length
+        else none
+      match k? with
+      | some k => showIds ((limitRows eqv' wt k afterOff).map Prod.fst)
+      | none => "E"
+    | none => "bad-op"
+  | _, _, _, _ => "bad-op"
+
 
 def c07 (cmd : String) (args : List String) : String :=
   let bad := "bad-op"
-  let cmd := if cmd = "sorted_mixed" then "sorted" else cmd
+  let cmd := if cmd = "sorted_mixed" then "sorted" else if cmd = "strict_sorted_mixed" then "strict_sorted" else cmd
   match cmd, args with
   | "sv", [c] =>
     match parseCell c with
-    | some .null => "N"
-    | some (.int i f t) => s!"I {i} {showF f} x{hex t}"
-    | some (.flt f t) => s!"F {showF f} x{hex t}"
-    | some (.dt ns) => s!"D {ns}"
-    | some (.bool b) => if b then "B 1" else "B 0"
-    | some (.str t) => "S x" ++ hex t
+    | some v => showSortVal v
     | none => bad
-  | "sorted", its :: nc :: rest =>
-    -- rows are given in the implementation's output order; answer: is that order sorted?
-    match (its.splitOn ",").mapM parseItem, nc.toNat? with
-    | some its, some ncols =>
-      match parseRows ncols rest with
-      | some rows =>
-        match firstBad its rows 0 with
-        | none => "sorted"
-        | some i => s!"unsorted-at:{i}"
-      | none => bad
+  | "strict_sv", [c] =>
+    -- NewSortValue under --strict-equal: the typed fields and the bytes of SerializedKey
+    match parseCellS c with
+    | some v => showSortVal v.val ++ " k" ++ hex v.key
+    | none => bad
+  | "less", [x, y] =>
+    -- SortValue.Less / EquivalentTo on one pair of values, both ways round
+    match parseCell x, parseCell y with
+    | some a, some b => s!"{(a.less b).toStr}{(b.less a).toStr} {if a.equiv b then 1 else 0}{if b.equiv a then 1 else 0}"
     | _, _ => bad
-  | "cut", its :: nc :: wt :: kind :: lim :: off :: rest =>
-    -- rows in sorted order; apply OFFSET then LIMIT as view.go does; answer: surviving ids
-    match (its.splitOn ",").mapM parseItem, nc.toNat?, parseBool wt, off.toInt? with
-    | some _, some ncols, some wt, some off =>
-      match parseRows ncols rest with
-      | some rows =>
-        let afterOff := offsetRows off rows
-        let eqv := fun (a b : Nat × List SortVal) => rowsEquiv a.2 b.2
-        -- View.Limit takes the percentage of RecordLen() + view.offset
-        let total := afterOff.length + (if off < 0 then 0 else off.toNat)
-        let k? : Option Nat :=
-          if kind = "n" then lim.toInt?.map limitNumber
-          else if kind = "p" then (parseF lim).bind (limitPercent total)
-          else if kind = "none" then some afterOff.length
-          else none
-        match k? with
-        | some k => showIds ((limitRows eqv wt k afterOff).map Prod.fst)
-        | none => "E"
-      | none => bad
-    | _, _, _, _ => bad
+  | "strict_less", [x, y] =>
+    match parseCellS x, parseCellS y with
+    | some a, some b => s!"{(a.less b).toStr}{(b.less a).toStr} {if a.equiv b then 1 else 0}{if b.equiv a then 1 else 0}"
+    | _, _ => bad
+  | "sorted", its :: nc :: rest => opSorted parseCell rowsLess its nc rest
+  | "strict_sorted", its :: nc :: rest => opSorted parseCellS rowsLessS its nc rest
+  | "cut", its :: nc :: wt :: kind :: lim :: off :: rest => opCut parseCell rowsEquiv its nc wt kind lim off rest
+  | "strict_cut", its :: nc :: wt :: kind :: lim :: off :: rest => opCut parseCellS rowsEquivS its nc wt kind lim off rest
   | "pct", [total, off, p] =>
     -- LIMIT p PERCENT OFFSET off on `total` rows: how many rows survive
     match total.toNat?, off.toNat?, parseF p with
